@@ -444,7 +444,7 @@ pub fn generate(seed: u64, n: usize, thorough: bool, corpus: Option<&str>) -> Ve
     // ---- multi-index array access with each index position in turn out of range (by one, by many, negative, fractional) on
     //      matrices, jagged arrays and 3-level arrays, literal indexes and loop variables: OutOfBounds, never a panic - deterministic
     {
-        let data = "    let M = [[1, 2], [3, 4]]\n    let J = [[1], [2, 3], [4, 5, 6]]\n    let T = [[[1, 2], [3]], [[4]]]\n    let V = [7, 8, 9]\n";
+        let data = "    let M = [[1, 2], [3, 4]]\n    let J = [[1], [2, 3], [4, 5, 6]]\n    let T = [[[1, 2], [3]], [[4]]]\n    let W = [7, 8, 9]\n";
         let mut k = 0usize;
         let mut exprs: Vec<String> = vec![];
         for (name, dims) in [("M", vec![2usize, 2]), ("J", vec![3, 1]), ("T", vec![2, 2, 2])] {
@@ -455,9 +455,9 @@ pub fn generate(seed: u64, n: usize, thorough: bool, corpus: Option<&str>) -> Ve
                 }
             }
         }
-        exprs.extend(["J[2][3]", "J[0][1]", "J[1][2]", "T[1][1][0]", "T[0][1][1]", "T[1][0][1]", "T[0][2][0]", "M[2][2]", "V[0][0]", "V[3][0]", "M[0][0][0]", "T[0][0][0][0]", "M[1][1]", "T[1][0][0]"].iter().map(|s| s.to_string()));
+        exprs.extend(["J[2][3]", "J[0][1]", "J[1][2]", "T[1][1][0]", "T[0][1][1]", "T[1][0][1]", "T[0][2][0]", "M[2][2]", "W[0][0]", "W[3][0]", "M[0][0][0]", "T[0][0][0][0]", "M[1][1]", "T[1][0][0]"].iter().map(|s| s.to_string()));
         let mut progs: Vec<String> = exprs.iter().map(|e| format!("min 1\ns.t.\n    z >= {}\nwhere\n{}define\n    z as Real\n", e, data)).collect();
-        for (body, it) in [("M[i][0]", "i in 0..3"), ("M[0][i]", "i in 0..3"), ("J[i][i]", "i in 0..3"), ("T[i][1][0]", "i in 0..2"), ("T[0][i][0]", "i in 0..3"), ("T[0][0][i]", "i in 0..3"), ("M[i][j]", "i in 0..3, j in 0..2"), ("J[i][j]", "(i, j) in [[2, 2], [3, 0]]"), ("M[len(V)][0]", "i in 0..1")] {
+        for (body, it) in [("M[i][0]", "i in 0..3"), ("M[0][i]", "i in 0..3"), ("J[i][i]", "i in 0..3"), ("T[i][1][0]", "i in 0..2"), ("T[0][i][0]", "i in 0..3"), ("T[0][0][i]", "i in 0..3"), ("M[i][j]", "i in 0..3, j in 0..2"), ("J[i][j]", "(i, j) in [[2, 2], [3, 0]]"), ("M[len(W)][0]", "i in 0..1")] {
             progs.push(format!("min 1\ns.t.\n    z >= {} for {}\nwhere\n{}define\n    z as Real\n", body, it, data));
             progs.push(format!("min 1\ns.t.\n    z >= sum({}) {{ {} }}\nwhere\n{}define\n    z as Real\n", it, body, data));
             progs.push(format!("min 1\ns.t.\n    z >= 0\nwhere\n{}define\n    z as Real\n    y_i as IntegerRange(0, {}) for {}\n", data, body.replace("[i][j]", "[i][0]"), it.split(',').next().unwrap_or(it)));
